@@ -410,3 +410,243 @@ pub proof fn lemma_u64_lt_pow2_70(v: u64) ensures v < pow2(70), 1 < pow2(7) {
     lemma_pow2_add(63, 7);
     assert(pow2(63) * pow2(7) > 0xFFFF_FFFF_FFFF_FFFF) by (nonlinear_arith) requires pow2(63) == 0x8000_0000_0000_0000, pow2(7) == 128;
 }
+
+// ---- round trip: the spec decoder accepts what the encoder emits ----------------------------------------
+pub proof fn lemma_le32_roundtrip(v: u32, rest: Seq<u8>)
+    ensures le32(enc_le32(v) + rest) == v, enc_le32(v).len() == 4,
+{
+    let s = enc_le32(v) + rest;
+    assert(s[0] == (v % 256) as u8 && s[1] == ((v / 0x100) % 256) as u8 && s[2] == ((v / 0x1_0000) % 256) as u8 && s[3] == ((v / 0x100_0000) % 256) as u8);
+}
+
+pub proof fn lemma_xz_rt_block(e: Seq<u8>, data: Seq<u8>, rest: Seq<u8>)
+    requires l2_decodes_to(e, data),
+    ensures sp_xz_block(2, enc_xz_block(e).skip(1) + rest, 0)
+        == (BlockRes::Good { used: (11 + e.len() + sp_pad4(12 + e.len())) as nat, out: data, unpadded: 12 + e.len() }),
+{
+    reveal(sp_xz_block);
+    let bh = enc_xz_bhdr();
+    let crc = enc_le32(crc32_of(bh));
+    let pad = zeros(sp_pad4(12 + e.len()));
+    let blk = enc_xz_block(e);
+    let rem = blk.skip(1) + rest;
+    let hdr = seq![0u8, 0x21u8, 1u8, 22u8, 0u8, 0u8, 0u8];
+    assert(blk =~= bh + crc + e + pad);
+    lemma_le32_roundtrip(crc32_of(bh), e + pad + rest);
+    assert(rem =~= hdr + (crc + (e + (pad + rest))));
+    assert(rem.take(7) =~= hdr);
+    assert(rem.skip(7) =~= crc + (e + pad + rest));
+    assert(seq![2u8] + rem.take(7) =~= bh);
+    // block header
+    assert(sp_bh_prefix(hdr) == Some((1nat, None::<nat>, None::<nat>, 1nat)));
+    let sf = hdr.skip(1);
+    assert(sf =~= seq![0x21u8, 1u8, 22u8, 0u8, 0u8, 0u8]);
+    lemma_pow2(0);
+    assert(sp_multibyte(sf, 0, 0) == Some((0x21nat, 1nat)));
+    assert(sf.skip(1) =~= seq![1u8, 22u8, 0u8, 0u8, 0u8]);
+    assert(sp_multibyte(sf.skip(1), 0, 0) == Some((1nat, 1nat)));
+    assert(sf.subrange(2, 3) =~= seq![22u8]);
+    assert(sf.skip(3) =~= seq![0u8, 0u8, 0u8]);
+    reveal_with_fuel(sp_filters, 2);
+    let f0 = FilterS { id: 0x21, props: seq![22u8] };
+    assert(sp_filters(sf.skip(3), 0, 7) == Some((Seq::<FilterS>::empty(), 0nat)));
+    assert(sp_filters(sf, 1, 7) == Some((seq![f0] + Seq::<FilterS>::empty(), 3nat)));
+    assert(all_zero(sf.skip(3)));
+    let bhs = sp_block_header(hdr, 7);
+    assert(bhs == Some(BlockHdrS { packed: None, unpacked: None, filters: seq![f0] + Seq::<FilterS>::empty() }));
+    assert((seq![f0] + Seq::<FilterS>::empty()).len() == 1);
+    assert((seq![f0] + Seq::<FilterS>::empty())[0].props.len() == 1);
+    // payload
+    assert(rem.skip(11) =~= e + (pad + rest));
+    let w0 = Win { out: Seq::<u8>::empty(), hist: 0, maxd: usize::MAX as nat };
+    let lz = sp_lzma2(e + (pad + rest), fresh_model(0, 0, 0), w0);
+    assert(lz is Some && lz.unwrap().0 == e.len() && lz.unwrap().2.out == w0.out + data);
+    assert(Seq::<u8>::empty() + data =~= data);
+    let pos = 11 + e.len();
+    assert(rem.subrange(pos as int, (pos + pad.len()) as int) =~= pad);
+    assert(all_zero(pad));
+}
+
+/// three consecutive multibyte integers decode back (helper for the index)
+pub proof fn lemma_mb3(a: nat, b: nat, c: nat, rest: Seq<u8>)
+    requires enc_mb(a).len() <= 9, enc_mb(b).len() <= 9, enc_mb(c).len() <= 9,
+    ensures ({
+        let s = enc_mb(a) + enc_mb(b) + enc_mb(c) + rest;
+        let la = enc_mb(a).len(); let lb = enc_mb(b).len(); let lc = enc_mb(c).len();
+        &&& sp_multibyte(s, 0, 0) == Some((a, la))
+        &&& sp_multibyte(s.skip(la as int), 0, 0) == Some((b, lb))
+        &&& sp_multibyte(s.skip(la as int).skip(lb as int), 0, 0) == Some((c, lc))
+        &&& s.skip(la as int).skip(lb as int).skip(lc as int) == rest
+    }),
+{
+    let ma = enc_mb(a); let mb = enc_mb(b); let mc = enc_mb(c);
+    let s = ma + mb + mc + rest;
+    lemma_pow2(0);
+    let e0 = Seq::<u8>::empty();
+    assert(s =~= e0 + ma + (mb + mc + rest));
+    lemma_mb_roundtrip(e0, a, mb + mc + rest, 0);
+    assert(a * pow2(0) == a) by (nonlinear_arith) requires pow2(0) == 1;
+    let s1 = s.skip(ma.len() as int);
+    assert(s1 =~= e0 + mb + (mc + rest));
+    lemma_mb_roundtrip(e0, b, mc + rest, 0);
+    assert(b * pow2(0) == b) by (nonlinear_arith) requires pow2(0) == 1;
+    let s2 = s1.skip(mb.len() as int);
+    assert(s2 =~= e0 + mc + rest);
+    lemma_mb_roundtrip(e0, c, rest, 0);
+    assert(c * pow2(0) == c) by (nonlinear_arith) requires pow2(0) == 1;
+    assert(s2.skip(mc.len() as int) =~= rest);
+}
+
+pub proof fn lemma_index_records_one(s1: Seq<u8>, unp: nat, upk: nat, la: nat, lb: nat)
+    requires sp_multibyte(s1, 0, 0) == Some((unp, la)), sp_multibyte(s1.skip(la as int), 0, 0) == Some((upk, lb)),
+    ensures sp_index_records(s1, seq![RecS { unpadded: unp, unpacked: upk }], 0) == Some(la + lb),
+{
+    let recs = seq![RecS { unpadded: unp, unpacked: upk }];
+    reveal_with_fuel(sp_index_records, 2);
+    assert(recs.len() == 1);
+    assert(recs[0].unpadded == unp && recs[0].unpacked == upk);
+    assert(sp_index_records(s1.skip((la + lb) as int), recs, 1) == Some(0nat));
+}
+
+/// the tail of the index: padding and CRC32
+pub proof fn lemma_index_tail(s: Seq<u8>, recs: Seq<RecS>, k0: nat, used: nat, pad: Seq<u8>, crc: u32, rest: Seq<u8>, bp: Seq<u8>)
+    requires
+        sp_multibyte(s, 0, 0) == Some((recs.len(), k0)),
+        sp_index_records(s.skip(k0 as int), recs, 0) == Some(used),
+        pad == zeros(sp_pad4(1 + k0 + used)),
+        s.len() >= k0 + used, s.skip((k0 + used) as int) == pad + (enc_le32(crc) + rest),
+        bp == seq![0u8] + s.take((k0 + used) as int) + pad, crc == crc32_of(bp),
+    ensures sp_xz_index(s, recs, 1) == Some(k0 + used + pad.len() + 4),
+{
+    let body = k0 + used;
+    assert(s.subrange(body as int, (body + pad.len()) as int) =~= pad) by {
+        assert(s.skip(body as int).take(pad.len() as int) =~= pad);
+        assert(s.skip(body as int).take(pad.len() as int) =~= s.subrange(body as int, (body + pad.len()) as int));
+    }
+    assert(all_zero(pad));
+    assert(s.skip((body + pad.len()) as int) =~= enc_le32(crc) + rest) by {
+        assert(s.skip(body as int).skip(pad.len() as int) =~= enc_le32(crc) + rest);
+        assert(s.skip(body as int).skip(pad.len() as int) =~= s.skip((body + pad.len()) as int));
+    }
+    lemma_le32_roundtrip(crc, rest);
+    assert(s.take((body + pad.len()) as int) =~= s.take(body as int) + pad) by {
+        assert(s.take((body + pad.len()) as int) =~= s.take(body as int) + s.subrange(body as int, (body + pad.len()) as int));
+    }
+    assert(seq![0u8] + s.take((body + pad.len()) as int) =~= bp);
+}
+
+pub proof fn lemma_xz_rt_index(unp: nat, upk: nat, rest: Seq<u8>)
+    requires enc_mb(unp).len() <= 9, enc_mb(upk).len() <= 9,
+    ensures ({
+        let idx = enc_xz_index(unp, upk);
+        let recs = seq![RecS { unpadded: unp, unpacked: upk }];
+        &&& idx.len() >= 8 && idx.len() % 4 == 0 && idx[0] == 0u8
+        &&& sp_xz_index(idx.skip(1) + rest, recs, 1) == Some((idx.len() - 1) as nat)
+    }),
+{
+    let b = enc_xz_index_body(unp, upk);
+    let pad = zeros(sp_pad4(b.len()));
+    let bp = b + pad;
+    let crc = crc32_of(bp);
+    let idx = enc_xz_index(unp, upk);
+    let recs = seq![RecS { unpadded: unp, unpacked: upk }];
+    let m0 = enc_mb(1); let m1 = enc_mb(unp); let m2 = enc_mb(upk);
+    assert(m0 =~= seq![1u8]);
+    assert(idx =~= bp + enc_le32(crc));
+    lemma_le32_roundtrip(crc, rest);
+    let tail = pad + (enc_le32(crc) + rest);
+    let s = idx.skip(1) + rest;
+    assert(b =~= seq![0u8] + (m0 + m1 + m2));
+    assert(s =~= m0 + m1 + m2 + tail);
+    lemma_mb3(1, unp, upk, tail);
+    let s1 = s.skip(1);
+    lemma_index_records_one(s1, unp, upk, m1.len(), m2.len());
+    let used = m1.len() + m2.len();
+    assert(s.skip((1 + used) as int) =~= tail) by {
+        assert(s.skip(1).skip(m1.len() as int).skip(m2.len() as int) =~= s.skip((1 + used) as int));
+    }
+    assert(s.take((1 + used) as int) =~= m0 + m1 + m2);
+    assert(seq![0u8] + s.take((1 + used) as int) + pad =~= bp);
+    assert(b.len() == 1 + 1 + used);
+    lemma_index_tail(s, recs, 1, used, pad, crc, rest, bp);
+    assert((b.len() + sp_pad4(b.len())) % 4 == 0);
+}
+
+pub proof fn lemma_xz_rt_header(rest: Seq<u8>)
+    ensures sp_xz_header_ok(enc_xz_header(0) + rest), enc_xz_header(0).len() == 12, (enc_xz_header(0) + rest)[7] == 0u8,
+{
+    let h = enc_xz_header(0);
+    let f = h + rest;
+    let c = crc32_of(seq![0u8, 0u8]);
+    lemma_le32_roundtrip(c, rest);
+    assert(h =~= xz_magic() + seq![0u8, 0u8] + enc_le32(c));
+    assert(f.take(6) =~= xz_magic());
+    assert(f.subrange(6, 8) =~= seq![0u8, 0u8]);
+    assert(f.skip(8) =~= enc_le32(c) + rest);
+}
+
+pub proof fn lemma_xz_rt_footer(index_size: nat)
+    requires index_size >= 4, index_size % 4 == 0, index_size / 4 - 1 <= 0xFFFF_FFFF,
+    ensures sp_xz_footer_ok(enc_xz_footer(0, index_size), index_size, 0),
+{
+    let ft = enc_xz_footer(0, index_size);
+    let fb = enc_xz_footer_body(0, index_size);
+    let bs = (index_size / 4 - 1) as u32;
+    lemma_le32_roundtrip(crc32_of(fb), fb + xz_footer_magic());
+    lemma_le32_roundtrip(bs, seq![0u8, 0u8] + xz_footer_magic());
+    assert(ft =~= enc_le32(crc32_of(fb)) + (fb + xz_footer_magic()));
+    assert(fb =~= enc_le32(bs) + seq![0u8, 0u8]);
+    assert(ft.len() == 12);
+    assert(ft.skip(4) =~= enc_le32(bs) + (seq![0u8, 0u8] + xz_footer_magic()));
+    assert(ft.subrange(4, 10) =~= fb);
+    assert(ft.subrange(10, 12) =~= xz_footer_magic());
+    assert(ft[8] == 0u8 && ft[9] == 0u8);
+}
+
+pub proof fn lemma_xz_rt_blocks(e: Seq<u8>, data: Seq<u8>, tail: Seq<u8>)
+    requires l2_decodes_to(e, data), tail.len() > 0, tail[0] == 0u8,
+    ensures sp_xz_blocks(enc_xz_block(e) + tail, 0, Seq::<RecS>::empty(), Seq::<u8>::empty(), 0)
+        == (BlocksRes::Good { used: enc_xz_block(e).len(), out: data, recs: seq![RecS { unpadded: 12 + e.len(), unpacked: data.len() }] }),
+{
+    let blk = enc_xz_block(e);
+    let s = blk + tail;
+    let used = (11 + e.len() + sp_pad4(12 + e.len())) as nat;
+    assert(blk.len() == 1 + used);
+    assert(s[0] == 2u8);
+    lemma_xz_rt_block(e, data, tail);
+    assert(s.skip(1) =~= blk.skip(1) + tail);
+    assert(s.skip(1 + used as int) =~= tail);
+    let recs0 = Seq::<RecS>::empty();
+    let recs = recs0.push(RecS { unpadded: 12 + e.len(), unpacked: data.len() });
+    assert(recs =~= seq![RecS { unpadded: 12 + e.len(), unpacked: data.len() }]);
+    assert(Seq::<u8>::empty() + data =~= data);
+    reveal_with_fuel(sp_xz_blocks, 2);
+}
+
+#[verifier::rlimit(40)]
+pub proof fn lemma_xz_roundtrip(e: Seq<u8>, data: Seq<u8>)
+    requires l2_decodes_to(e, data), enc_mb(12 + e.len()).len() <= 9, enc_mb(data.len()).len() <= 9,
+        enc_xz_index(12 + e.len(), data.len()).len() / 4 - 1 <= 0xFFFF_FFFF,
+    ensures sp_xz(enc_xz_file(e, data.len())) == (XzRes::Good { out: data }),
+{
+    let n = data.len();
+    let u: nat = 12 + e.len();
+    let h = enc_xz_header(0);
+    let blk = enc_xz_block(e);
+    let idx = enc_xz_index(u, n);
+    let ft = enc_xz_footer(0, idx.len());
+    let f = enc_xz_file(e, n);
+    assert(f =~= h + (blk + (idx + ft)));
+    lemma_xz_rt_header(blk + (idx + ft));
+    lemma_xz_rt_index(u, n, ft);
+    let s = f.skip(12);
+    assert(s =~= blk + (idx + ft));
+    assert((idx + ft)[0] == 0u8);
+    lemma_xz_rt_blocks(e, data, idx + ft);
+    let recs = seq![RecS { unpadded: u, unpacked: n }];
+    let ip = 12 + blk.len() + 1;
+    assert(f.skip(ip as int) =~= idx.skip(1) + ft);
+    let ki = (idx.len() - 1) as nat;
+    assert(f.skip((ip + ki) as int) =~= ft);
+    lemma_xz_rt_footer(idx.len());
+}
